@@ -258,12 +258,16 @@ DUR = "MC_RainDur.tla"
 CONC = "MC_RainConc.tla"
 CONC_TRACE = ("RainConc_Trace.tla", "RainConc_Trace.cfg")
 Q1 = "MC_RainCore_q1.cfg"
+REO = "MC_RainCoreReopen.tla"
+REOQ = "MC_RainCoreReopen_q.cfg"
+REOPEN = (REO, [REOQ], ["MC_RainCoreReopen_small.cfg", "MC_RainCoreReopen.cfg"])
 
 PROPS = {
     "C01": dict(
-        design=[(CORE, [Q1], ["MC_RainCore_small.cfg", "MC_RainCore_pins.cfg"])],
+        design=[(CORE, [Q1], ["MC_RainCore_small.cfg", "MC_RainCore_pins.cfg"]), REOPEN],
         switches=[("Bug_RangeMin", CORE, "MC_RainCore_range.cfg", None),
-                  ("Bug_FlushLevelUnsafe", CORE, Q1, "ReadCorrect")],
+                  ("Bug_FlushLevelUnsafe", CORE, Q1, "ReadCorrect"),
+                  ("Bug_SeqFromManifestOnly", REO, REOQ, "RSeqSane")],
         work=[dict(driver="hist", args=["--nops", "60", "--per-file", "6"], quick=48, thorough=1200),
               # narrow, staircase-like overlapping level-0 files (key locality + frequent flushes)
               dict(driver="hist", args=["--nops", "80", "--per-file", "6", "--profile", "local",
@@ -286,8 +290,9 @@ PROPS = {
                                         "--nkeys", "12", "--compact-bias", "1"],
                    quick=32, thorough=800)]),
     "C10": dict(
-        design=[(CORE, [Q1], ["MC_RainCore_small.cfg"])],
-        switches=[("Bug_RangeMin", CORE, "MC_RainCore_range.cfg", None)],
+        design=[(CORE, [Q1], ["MC_RainCore_small.cfg"]), REOPEN],
+        switches=[("Bug_RangeMin", CORE, "MC_RainCore_range.cfg", None),
+                  ("Bug_SnapshotSwapsBounds", REO, REOQ, "RWellFormed")],
         work=[dict(driver="hist", args=["--nops", "60", "--per-file", "6", "--reopen-bias", "1"],
                    quick=48, thorough=1000),
               dict(driver="crash", args=["--nops", "30", "--threads", "2", "--every", "3"],
@@ -301,8 +306,10 @@ PROPS = {
               dict(driver="crash", args=["--nops", "30", "--threads", "2", "--every", "2", "--torn"],
                    quick=4, thorough=60)]),
     "C02": dict(
-        design=[(DUR, ["MC_RainDur_small.cfg"], ["MC_RainDur_small.cfg", "MC_RainDur_big.cfg"])],
-        switches=[("Bug_AckBeforeWal", DUR, "MC_RainDur_small.cfg", "Durable"),
+        design=[(DUR, ["MC_RainDur_small.cfg"], ["MC_RainDur_small.cfg", "MC_RainDur_big.cfg"]), REOPEN],
+        switches=[("Bug_ReplaySkipsOlderLogs", REO, REOQ, None),
+                  ("Bug_CounterNotRestored", REO, REOQ, "NumbersFresh"),
+                  ("Bug_AckBeforeWal", DUR, "MC_RainDur_small.cfg", "Durable"),
                   ("Bug_WalDeletedEarly", DUR, "MC_RainDur_small.cfg", None),
                   ("Bug_ManifestBeforeTable", DUR, "MC_RainDur_small.cfg", None),
                   ("Bug_CurrentInPlace", DUR, "MC_RainDur_small.cfg", None),
@@ -321,7 +328,10 @@ PROPS = {
         work=[dict(driver="fault", args=["--nops", "22", "--positions", "60"], quick=6, thorough=60,
                    one_per_proc=True),
               dict(driver="fault", args=["--nops", "14", "--positions", "40", "--large"], quick=2,
-                   thorough=20, one_per_proc=True)]),
+                   thorough=20, one_per_proc=True),
+              # reopen followed at once by a write that spans log blocks
+              dict(driver="fault", args=["--nops", "12", "--positions", "30", "--large",
+                                         "--reopen-heavy"], quick=3, thorough=30, one_per_proc=True)]),
     "C05": dict(
         design=[(CONC, ["MC_RainConc_small.cfg"], ["MC_RainConc_small.cfg"]),
                 ("MC_RainCache.tla", ["MC_RainCache_small.cfg"], ["MC_RainCache_big.cfg"])],
@@ -584,7 +594,9 @@ def finish(prop, tier, seed, t0, design, switches, recs, vruns, rejects, tstates
             dst = f"{vdir}/{prop}_{v['check']}_{seed_v}_{idx}_{sticky}.json"
             json.dump({"driver": "fault", "seed": seed_v, "idx": int(idx), "sticky": sticky == "true",
                        "nops": wl[0].get("nops", 22) if wl else 22,
-                       "large": wl[0].get("large", False) if wl else False}, open(dst, "w"))
+                       "large": wl[0].get("large", False) if wl else False,
+                       "reopen_heavy": wl[0].get("reopen_heavy", False) if wl else False},
+                      open(dst, "w"))
         else:
             try:
                 shutil.copy(rp, dst)
@@ -639,6 +651,8 @@ def replay(path):
             cmd.append("--sticky")
         if rp.get("large"):
             cmd.append("--large")
+        if rp.get("reopen_heavy"):
+            cmd.append("--reopen-heavy")
         r = sh(cmd, timeout=900)
     elif rp["driver"] == "sched":
         r = sh([BIN, "sched", "--seed", str(rp["seed"]), "--runs", "1", "--all", "--scenario",
